@@ -656,3 +656,209 @@ Proof.
   destruct (populate (S c) (events s1) ops); [|exact CI1]. cbn [fst].
   eapply cinv_upd; [exact CI1|apply incl_refl|exact Hc|]. apply ok_set_out. intros _. left. rewrite Oc. reflexivity.
 Qed.
+
+(* ---- Condition.__init__ : closed form of the state after call_cond ---- *)
+
+Lemma get_schedule e c p d s : get_event e (schedule c p d s) = get_event e s.
+Proof. reflexivity. Qed.
+
+(* effect of _check on the events other than the condition *)
+Lemma cond_check_frame c o s e :
+  e <> c ->
+  get_event e (cond_check c o s) = get_event e s \/
+  (e = o /\ exists oev, get_event o s = Some oev /\ is_failed oev = true /\
+            get_event e (cond_check c o s) = Some (ev_set_defused oev)).
+Proof.
+  intros N. unfold cond_check.
+  destruct (get_event c s) as [cev|] eqn:Hc; [|left; reflexivity].
+  destruct (get_event o s) as [oev|] eqn:Ho; [|left; reflexivity].
+  destruct (out cev); [left; reflexivity|]. destruct (kind cev); try (left; reflexivity).
+  destruct (out oev) as [[v|x]|] eqn:Oo.
+  - left. destruct (cond_evaluate _ _ _); unfold trigger_event; rewrite ?get_schedule, ?get_upd_other by exact N; reflexivity.
+  - unfold trigger_event. rewrite get_schedule.
+    rewrite get_upd_other by exact N. rewrite get_upd. destruct (Nat.eqb e o) eqn:E.
+    + apply Nat.eqb_eq in E. subst e. right. split; [reflexivity|]. exists oev.
+      rewrite get_upd_other by exact N. rewrite Ho. unfold is_failed. rewrite Oo. auto.
+    + left. rewrite get_upd_other by exact N. reflexivity.
+  - left. destruct (cond_evaluate _ _ _); unfold trigger_event; rewrite ?get_schedule, ?get_upd_other by exact N; reflexivity.
+Qed.
+
+Lemma length_cond_check c o s : length (events (cond_check c o s)) = length (events s).
+Proof.
+  unfold cond_check. destruct (get_event c s); [|reflexivity]. destruct (get_event o s); [|reflexivity].
+  destruct (out e); [reflexivity|]. destruct (kind e); try reflexivity.
+  destruct (out e0) as [[?|?]|]; [destruct (cond_evaluate _ _ _)| |destruct (cond_evaluate _ _ _)];
+    unfold trigger_event; cbn [events schedule]; rewrite ?upd_event_length; reflexivity.
+Qed.
+
+Lemma length_cond_subscribe c l : forall s, length (events (cond_subscribe c l s)) = length (events s).
+Proof.
+  induction l as [|o t IH]; intros s; cbn [cond_subscribe]; [reflexivity|]. rewrite IH.
+  destruct (get_event o s); [|reflexivity]. destruct (is_processed e); [apply length_cond_check|apply upd_event_length].
+Qed.
+
+Lemma repeat_cons_app {A} (x : A) n l : l ++ x :: repeat x n = (l ++ [x]) ++ repeat x n.
+Proof. rewrite <- app_assoc. reflexivity. Qed.
+
+Lemma sub_frame c : forall l s, (forall o, In o l -> o <> c) -> forall e ev, e <> c -> get_event e s = Some ev ->
+  exists ev', get_event e (cond_subscribe c l s) = Some ev' /\ kind ev' = kind ev /\ out ev' = out ev /\
+    (defused ev = true -> defused ev' = true) /\
+    (defused ev' = true -> defused ev = true \/ (In e l /\ cbs ev = None /\ is_failed ev = true)) /\
+    cbs ev' = match cbs ev with None => None | Some l0 => Some (l0 ++ repeat (CbCheck c) (occ e l)) end.
+Proof.
+  induction l as [|o t IH]; intros s Hl e ev N He; cbn [cond_subscribe].
+  - exists ev. repeat split; auto. destruct (cbs ev); [rewrite app_nil_r|]; reflexivity.
+  - set (s1 := match get_event o s with
+               | Some oev => if is_processed oev then cond_check c o s else add_callback o (CbCheck c) s
+               | None => s end).
+    assert (H1 : exists ev1, get_event e s1 = Some ev1 /\ kind ev1 = kind ev /\ out ev1 = out ev /\
+                   (defused ev = true -> defused ev1 = true) /\
+                   (defused ev1 = true -> defused ev = true \/ (e = o /\ cbs ev = None /\ is_failed ev = true)) /\
+                   cbs ev1 = match cbs ev with None => None
+                                          | Some l0 => Some (if Nat.eqb e o then l0 ++ [CbCheck c] else l0) end).
+    { subst s1. destruct (get_event o s) as [oev|] eqn:Ho.
+      - destruct (is_processed oev) eqn:Po.
+        + destruct (cond_check_frame c o s e N) as [E|(-> & oev' & Ho' & F & E)].
+          * exists ev. rewrite E. repeat split; auto.
+            destruct (cbs ev) eqn:C; [|reflexivity]. destruct (Nat.eqb e o) eqn:Eo; [|reflexivity].
+            apply Nat.eqb_eq in Eo. subst e. rewrite He in Ho. injection Ho as <-. unfold is_processed in Po. rewrite C in Po. discriminate.
+          * rewrite Ho in Ho'. injection Ho' as <-. rewrite He in Ho. injection Ho as <-.
+            exists (ev_set_defused ev). split; [exact E|]. cbn. repeat split; auto.
+            -- intros _. right. unfold is_processed in Po. destruct (cbs ev); [discriminate|auto].
+            -- unfold is_processed in Po. destruct (cbs ev); [discriminate|reflexivity].
+        + unfold add_callback. rewrite get_upd. destruct (Nat.eqb e o) eqn:Eo.
+          * apply Nat.eqb_eq in Eo. subst e. rewrite He in Ho. injection Ho as <-. rewrite He. cbn.
+            exists (ev_add_cb (CbCheck c) ev). split; [reflexivity|]. unfold ev_add_cb, is_processed in *.
+            destruct (cbs ev) eqn:C; [|discriminate]. cbn. rewrite ?Nat.eqb_refl. repeat split; auto.
+          * exists ev. repeat split; auto. destruct (cbs ev); reflexivity.
+      - exists ev. repeat split; auto. destruct (cbs ev) eqn:C; [|reflexivity]. destruct (Nat.eqb e o) eqn:Eo; [|reflexivity].
+        apply Nat.eqb_eq in Eo. subst e. congruence. }
+    destruct H1 as (ev1 & He1 & K1 & O1 & D1 & D1' & C1).
+    destruct (IH s1 (fun o' Ho' => Hl o' (or_intror Ho')) e ev1 N He1) as (ev' & He' & K' & O' & D' & D'' & C').
+    exists ev'. split; [exact He'|]. split; [congruence|]. split; [congruence|]. split; [auto|]. split.
+    + intros Dd. destruct (D'' Dd) as [Dd1|(I1 & Cb1 & F1)].
+      * destruct (D1' Dd1) as [?|(-> & ? & ?)]; [auto|]. right. split; [left; reflexivity|auto].
+      * right. split; [right; exact I1|]. unfold is_failed in *. rewrite O1 in F1. split; [|exact F1].
+        rewrite C1 in Cb1. destruct (cbs ev); [discriminate|reflexivity].
+    + rewrite C', C1. destruct (cbs ev) as [l0|]; [|reflexivity]. rewrite occ_cons.
+      destruct (Nat.eqb e o); cbn [plus repeat]; [|reflexivity]. rewrite <- app_assoc. reflexivity.
+Qed.
+
+Lemma sub1_is_proc c o s e : o <> c -> e <> c -> is_proc (cond_subscribe c [o] s) e = is_proc s e.
+Proof.
+  intros No Ne. unfold is_proc. destruct (get_event e s) as [ev|] eqn:He.
+  - destruct (sub_frame c [o] s) with (e := e) (ev := ev) as (ev' & He' & _ & _ & _ & _ & C); auto.
+    { intros o' [<-|[]]. exact No. }
+    rewrite He'. unfold is_processed. rewrite C. destruct (cbs ev); reflexivity.
+  - assert (L : (length (events s) <= e)%nat) by (apply nth_error_None; exact He).
+    rewrite get_ge; [reflexivity|]. rewrite length_cond_subscribe. exact L.
+Qed.
+
+Lemma sub1_other c o s e ev : o <> c -> e <> c -> get_event e s = Some ev ->
+  exists ev', get_event e (cond_subscribe c [o] s) = Some ev' /\ out ev' = out ev /\ (cbs ev = None -> cbs ev' = None) /\
+              (defused ev = true -> defused ev' = true).
+Proof.
+  intros No Ne He. destruct (sub_frame c [o] s) with (e := e) (ev := ev) as (ev' & He' & _ & O & D & _ & C); auto.
+  { intros o' [<-|[]]. exact No. }
+  exists ev'. repeat split; auto. intros Cn. rewrite C, Cn. reflexivity.
+Qed.
+
+(* the record of the condition under construction, after the operands [done] have been visited *)
+Definition CS (s : state) (c : evid) (all : bool) (ops done : list evid) : Prop :=
+  exists cev n, get_event c s = Some cev /\ cbs cev = Some [] /\ kind cev = KCond all ops n /\
+    (n <= procpos s done)%nat /\
+    match out cev with
+    | None => n = procpos s done /\ cond_evaluate all (length ops) n = false /\
+              (forall o oev, In o done -> get_event o s = Some oev -> cbs oev = None -> is_failed oev = false)
+    | Some (Ok v) => v = VNone /\ cond_evaluate all (length ops) n = true
+    | Some (Fail x) => exists o oev, In o done /\ get_event o s = Some oev /\ cbs oev = None /\ defused oev = true /\
+                                     out oev = Some (Fail x)
+    end.
+
+Lemma CS_step c all ops o s done :
+  o <> c -> (forall d, In d done -> d <> c) -> CS s c all ops done -> CS (cond_subscribe c [o] s) c all ops (done ++ [o]).
+Proof.
+  intros No Nd (cev & n & Hc & Cc & Kc & Le & M).
+  set (s1 := cond_subscribe c [o] s).
+  assert (PP : procpos s1 (done ++ [o]) = (procpos s done + (if is_proc s o then 1 else 0))%nat).
+  { rewrite procpos_app, procpos_cons. unfold procpos at 3. cbn [filter length]. rewrite Nat.add_0_r.
+    unfold s1. rewrite sub1_is_proc by auto. f_equal. apply procpos_ext. intros d Hd. apply sub1_is_proc; auto. }
+  (* the events of [done] keep what matters *)
+  assert (Keep : forall d dev, d <> c -> get_event d s = Some dev -> exists dev', get_event d s1 = Some dev' /\
+                   out dev' = out dev /\ (cbs dev = None -> cbs dev' = None) /\ (defused dev = true -> defused dev' = true)).
+  { intros d dev Hd H. apply sub1_other; auto. }
+  assert (Keep2 : forall d dev', d <> c -> get_event d s1 = Some dev' -> exists dev, get_event d s = Some dev /\
+                   out dev' = out dev /\ (cbs dev' = None -> cbs dev = None)).
+  { intros d dev' Hd H. destruct (get_event d s) as [dev|] eqn:E.
+    - destruct (sub_frame c [o] s) with (e := d) (ev := dev) as (dev2 & He' & _ & O & _ & _ & C); auto.
+      { intros o' [<-|[]]. exact No. }
+      fold s1 in He'. rewrite H in He'. injection He' as <-. exists dev. split; [reflexivity|]. split; [exact O|].
+      rewrite C. destruct (cbs dev); [discriminate|reflexivity].
+    - exfalso. assert (L : (length (events s) <= d)%nat) by (apply nth_error_None; exact E).
+      unfold s1 in H. rewrite get_ge in H; [discriminate|]. rewrite length_cond_subscribe. exact L. }
+  (* case analysis on the iteration *)
+  unfold s1 in *. cbn [cond_subscribe] in *. clear s1.
+  destruct (get_event o s) as [oev|] eqn:Ho.
+  2:{ (* not an event: nothing happens *)
+      exists cev, n. assert (Po : is_proc s o = false) by (unfold is_proc; rewrite Ho; reflexivity).
+      rewrite Po, Nat.add_0_r in PP. rewrite PP.
+      split; [exact Hc|]. split; [exact Cc|]. split; [exact Kc|]. split; [exact Le|].
+      destruct (out cev) as [[v|x]|]; auto.
+      - destruct M as (d & dev & A & B). exists d, dev. split; [apply in_or_app; auto|exact B].
+      - destruct M as (A & B & C). split; [exact A|]. split; [exact B|].
+        intros d dev Hd Hg Cb. apply in_app_or in Hd. destruct Hd as [Hd|[Hd|[]]]; [eapply C; eauto|subst d; congruence]. }
+  assert (Po : is_proc s o = is_processed oev) by (unfold is_proc; rewrite Ho; reflexivity).
+  destruct (is_processed oev) eqn:Pr.
+  2:{ (* pending operand: subscribe *)
+      rewrite Po, Nat.add_0_r in PP. exists cev, n.
+      rewrite PP. split; [unfold add_callback; rewrite get_upd_other by congruence; exact Hc|]. split; [exact Cc|]. split; [exact Kc|]. split; [exact Le|].
+      destruct (out cev) as [[v|x]|]; auto.
+      - destruct M as (d & dev & A & B & C & D & E). destruct (Keep _ _ (Nd _ A) B) as (dev' & B' & O' & C' & D').
+        exists d, dev'. split; [apply in_or_app; auto|]. split; [exact B'|]. split; [auto|]. split; [auto|congruence].
+      - destruct M as (A & B & C). split; [exact A|]. split; [exact B|]. intros d dev Hd Hg Cb.
+        apply in_app_or in Hd. destruct Hd as [Hd|[<-|[]]].
+        + destruct (Keep2 _ _ (Nd _ Hd) Hg) as (dev0 & H0 & O0 & C0). unfold is_failed. rewrite O0. eapply C; eauto.
+        + destruct (Keep2 _ _ No Hg) as (dev0 & H0 & O0 & C0). rewrite Ho in H0. injection H0 as <-.
+          unfold is_processed in Pr. rewrite (C0 Cb) in Pr. discriminate. }
+  (* processed operand: _check *)
+  rewrite Po in PP.
+  destruct (out cev) as [oc|] eqn:Oc.
+  { (* already triggered: _check returns at once *)
+    rewrite cond_check_noop in * by (right; right; exists cev; split; [exact Hc|left; congruence]).
+    exists cev, n. rewrite Oc. split; [exact Hc|]. split; [exact Cc|]. split; [exact Kc|]. split; [rewrite PP; lia|].
+    destruct oc as [v|x]; auto. destruct M as (d & dev & A & B). exists d, dev. split; [apply in_or_app; auto|exact B]. }
+  destruct M as (Mn & Me & Mf).
+  assert (Cn : c <> o) by congruence.
+  pose proof (cond_check_eq c o s cev oev all ops n Hc Ho Oc Kc Cn) as EQ. cbv zeta in EQ.
+  set (s0 := if is_failed oev then upd_event o ev_set_defused s else s) in *.
+  assert (Hc0 : get_event c s0 = Some cev).
+  { subst s0. destruct (is_failed oev); [rewrite get_upd_other by exact Cn|]; exact Hc. }
+  set (cev' := check_upd all ops n (out oev) cev).
+  assert (Hc1 : get_event c (cond_check c o s) = Some cev').
+  { rewrite EQ. destruct (check_triggers _ _ _ _); rewrite ?get_schedule; apply get_upd_same, Hc0. }
+  assert (Ccb : cbs cev' = Some []).
+  { unfold cev', check_upd. destruct (out oev) as [[?|?]|]; [destruct (cond_evaluate all (length ops) (S n))| |destruct (cond_evaluate all (length ops) (S n))]; exact Cc. }
+  assert (Ck : kind cev' = KCond all ops (S n)).
+  { unfold cev', check_upd. destruct (out oev) as [[?|?]|]; [destruct (cond_evaluate all (length ops) (S n))| |destruct (cond_evaluate all (length ops) (S n))]; reflexivity. }
+  exists cev', (S n). split; [exact Hc1|]. split; [exact Ccb|]. split; [exact Ck|]. split; [rewrite PP; lia|].
+  unfold cev', check_upd. destruct (out oev) as [[v|x]|] eqn:Oo.
+  - destruct (cond_evaluate all (length ops) (S n)) eqn:Ev; cbn [out ev_set_out ev_set_kind]; [auto|].
+    rewrite Oc. split; [rewrite PP; lia|]. split; [reflexivity|].
+    intros d dev Hd Hg Cb. apply in_app_or in Hd. destruct Hd as [Hd|[<-|[]]].
+    + destruct (Keep2 _ _ (Nd _ Hd) Hg) as (dev0 & H0 & O0 & C0). unfold is_failed. rewrite O0. eapply Mf; eauto.
+    + destruct (Keep2 _ _ No Hg) as (dev0 & H0 & O0 & C0). rewrite Ho in H0. injection H0 as <-.
+      unfold is_failed. rewrite O0, Oo. reflexivity.
+  - cbn [out ev_set_out ev_set_kind].
+    assert (F : is_failed oev = true) by (unfold is_failed; rewrite Oo; reflexivity).
+    exists o, (ev_set_defused oev). split; [apply in_or_app; right; left; reflexivity|].
+    split.
+    + rewrite EQ. unfold check_triggers. rewrite get_schedule, get_upd_other by congruence.
+      unfold s0. rewrite F. apply get_upd_same, Ho.
+    + cbn. unfold is_processed in Pr. destruct (cbs oev); [discriminate|]. auto.
+  - destruct (cond_evaluate all (length ops) (S n)) eqn:Ev; cbn [out ev_set_out ev_set_kind]; [auto|].
+    rewrite Oc. split; [rewrite PP; lia|]. split; [reflexivity|].
+    intros d dev Hd Hg Cb. apply in_app_or in Hd. destruct Hd as [Hd|[<-|[]]].
+    + destruct (Keep2 _ _ (Nd _ Hd) Hg) as (dev0 & H0 & O0 & C0). unfold is_failed. rewrite O0. eapply Mf; eauto.
+    + destruct (Keep2 _ _ No Hg) as (dev0 & H0 & O0 & C0). rewrite Ho in H0. injection H0 as <-.
+      unfold is_failed. rewrite O0, Oo. reflexivity.
+Qed.
